@@ -269,6 +269,10 @@ class SerdeInterp(PlaceInterp):
                     return ('ctor', OK, (a0,)) if INT_MIN[inner] <= a0 <= INT_MAX[inner] else ('ctor', ERR, (('conversion-error', inner),))
             if p.split('::<')[0] in ('alloc::string::String::new', 'alloc::string::String::with_capacity') :
                 return ''
+            if p.startswith('kstring::') and len(e.get('args', [])) == 1 and self._workspace_body(f) is None:
+                a0 = deref(self.val(e['args'][0], env))
+                if isinstance(a0, str):
+                    return a0               # the `perf` feature's string type: a string is the text it holds
             if seg == 'from' and len(e.get('args', [])) == 1 and f.get('res') in ('AssocFn', 'Fn') and self._workspace_body(f) is None:
                 a0 = deref(self.val(e['args'][0], env))
                 body = self._from_impl(e.get('t') or '', a0, peel(e['args'][0]).get('t'))
